@@ -22,8 +22,8 @@ fn schedule_body<const NV: usize, const NA: usize>() {
         assert!(s[r] == (apts[j], false, j), "audio sample sits at its (pts, video-first, index) rank");
         j += 1;
     }
-    kani::cover!(NV > 0 && NA > 0 && vpts[0] == apts[0], "equal timestamps across tracks");
-    kani::cover!(NV > 0 && NA > 0 && apts[0] < vpts[0], "audio first");
+    crate::vcover!(NV > 0 && NA > 0 && vpts[0] == apts[0], "equal timestamps across tracks");
+    crate::vcover!(NV > 0 && NA > 0 && apts[0] < vpts[0], "audio first");
     core::mem::forget((w, s));
 }
 macro_rules! sched_h {
@@ -84,8 +84,8 @@ fn order_body<const NV: usize, const NA: usize>(fast_start: bool) {
     if NV == 2 && vpts[0] <= vpts[1] {
         assert!(sink.pos_of(vtag(0)) < sink.pos_of(vtag(1)), "video samples stored in sample order");
     }
-    kani::cover!(NV > 0 && NA > 0 && vpts[0] == apts[0], "equal timestamps: video first");
-    kani::cover!(NV > 0 && NA > 0 && apts[0] < vpts[0], "audio stored before video");
+    crate::vcover!(NV > 0 && NA > 0 && vpts[0] == apts[0], "equal timestamps: video first");
+    crate::vcover!(NV > 0 && NA > 0 && apts[0] < vpts[0], "audio stored before video");
     core::mem::forget((w, r));
 }
 macro_rules! order_h {
